@@ -90,6 +90,9 @@ impl<'a> CkksMachine<'a> {
     /// typing: Ok(true) = the library must accept, Ok(false) = the library must refuse (the property's refusal clause), Err = not a call we make
     pub fn expect(&self, op: &COp) -> Result<bool, &'static str> {
         let el = |i: &usize| &self.pool[*i];
+        // the property quantifies over scales from 2^10 upwards; below 1 the library's scale comparison (absolute epsilon
+        // relative to max(a, b, 1)) cannot tell scales apart at all, so such operands are not part of the workload
+        if op.operands().iter().any(|i| self.pool[*i].ct.scale() < 1024.0) { return Err("operand scale below 2^10 (outside the property's range)"); }
         match op {
             COp::Negate(_) => Ok(true),
             COp::Add(a, b) | COp::Sub(a, b) => Ok(el(a).level == el(b).level && are_close(el(a).ct.scale(), el(b).ct.scale())),
@@ -255,6 +258,7 @@ fn programs(cfg: &Cfg, grp: &str, case: u64, rng: &mut Rng, rep: &mut Report, ns
                 rep.count("scale_checked", op.name());
                 // (b) values within the worst-case error, while the coefficient magnitude cannot wrap
                 let cell = format!("{}|size{}|L{}", op.name(), el.ct.size().min(9), el.level);
+                if el.ct.scale() < 1024.0 { rep.count("results_below_scale_range", op.name()); rep.out_of_precondition += 1; rep.eval(None); continue; }
                 if m.within(&el) {
                     let fp = ckks_fp_tolerance(m.n(), m.kit.level_qs(el.level).len(), el.m + el.e, el.ct.scale());
                     let tol = el.e + fp;
@@ -340,7 +344,7 @@ pub fn c06_hook(cfg: &Cfg, rep: &mut Report) {
             if !oks[0].is_valid_for(&kit.ctx) { viol(&o, rep, op.name(), "CKKS|is_valid_for", "invalid_result", "result is not is_valid_for the context".into(), &spec, &trace); }
             rep.eval(Some(&cell));
             let el = m.result(&op, oks[0].clone());
-            if m.within(&el) { m.pool.push(el); }
+            if m.within(&el) && el.ct.scale() >= 1024.0 { m.pool.push(el); }
         }
     });
 }
